@@ -1,0 +1,13 @@
+//go:build verif
+
+package encrypt
+
+import "reflect"
+
+// VerifGateOccupancy reports how many slots of the package-level gates are
+// currently taken (0 at every quiescent point unless a slot leaked).
+func VerifGateOccupancy() int {
+	n := 0
+	n += reflect.ValueOf(statGate).Elem().Field(0).Len()
+	return n
+}
